@@ -20,12 +20,27 @@ __CPROVER_decreases(maxIterations_ - iter)
 """}),
     dict(name="isSatisfied", file=CON, sig=r"bool ompl::base::Constraint::isSatisfied\(const Eigen::Ref<const Eigen::VectorXd> &x\) const", rules=PROJ_RULES, loops={}),
 ]
-STUBS = ["FUNCTION", "JACOBIAN", "SQNORM", "NEWTON_STEP", "ALLFINITE"]
+ACH = "src/ompl/base/spaces/constraint/src/AtlasChart.cpp"
+PSI_RULES = [
+    (r"Eigen::VectorXd x0\(n_\);\s*phi\(u, x0\);", "", 0), (r"Eigen::MatrixXd A\(n_, n_\);\s*Eigen::VectorXd b\(n_\);", "", 0), (r"constraint_->getTolerance\(\)", "tolerance_", 0), (r"tolerance \* tolerance", "SQUARE(tolerance)", 0), (r"out = x0;", "", 0),
+    (r"A\.block\(n_ - k_, 0, k_, n_\) = bigPhi_\.transpose\(\);", "", 0), (r"constraint_->function\(out, b\.head\(n_ - k_\)\);", "FUNCTION();", 0), (r"b\.tail\(k_\)\.setZero\(\);", "", 0),
+    (r"b\.squaredNorm\(\)", "SQNORM()", 0), (r"constraint_->getMaxIterations\(\)", "maxIterations_", 0), (r"constraint_->jacobian\(out, A\.block\(0, 0, n_ - k_, n_\)\);", "JACOBIAN();", 0),
+    (r"out -= A\.partialPivLu\(\)\.solve\(b\);", "NEWTON_STEP();", 0), (r"b\.tail\(k_\) = bigPhi_\.transpose\(\) \* \(out - x0\);", "", 0),
+]
+PROJ_SRC.append(dict(name="psi", file=ACH, sig=r"bool ompl::base::AtlasChart::psi\(const Eigen::Ref<const Eigen::VectorXd> &u, Eigen::Ref<Eigen::VectorXd> out\) const", rules=PSI_RULES, loops={1: """
+__CPROVER_assigns(norm, iter, xver, fver, jver, steps, last_norm, last_norm_ver)
+__CPROVER_loop_invariant(iter <= maxIterations_ && fver == xver && steps == iter && xver == steps)
+__CPROVER_decreases(maxIterations_ - iter)
+"""}))
+STUBS = ["FUNCTION", "JACOBIAN", "SQNORM", "NEWTON_STEP", "ALLFINITE", "SQUARE"]
 UNITS = [
     dict(name="c16_constraint_project", template="C16/project.c", entry="h_project", enforce=["constraint_project"], replace=STUBS, sources=PROJ_SRC, flags=FLAGS, level="proof", backend="minisat", timeout=600,
          functions=["ompl::base::Constraint::project(Eigen::Ref<Eigen::VectorXd>)"], expect_loops=1, confirm=dict(unwind=4, defines={}),
          canaries=[dict(name="residual_not_refreshed", where="body:project", rx=r"NEWTON_STEP\(\);\s*FUNCTION\(\);", repl="NEWTON_STEP();"),
                    dict(name="success_without_looking", where="body:project", rx=r"return norm < squaredTolerance;", repl="return norm < squaredTolerance || iter > maxIterations_;")]),
+    dict(name="c16_atlaschart_psi", template="C16/project.c", entry="h_psi", enforce=["chart_psi"], replace=STUBS, sources=PROJ_SRC, flags=FLAGS, level="proof", backend="minisat", timeout=600,
+         functions=["ompl::base::AtlasChart::psi"], expect_loops=1, confirm=dict(unwind=4, defines={}),
+         canaries=[dict(name="unsquared_tolerance", where="body:psi", rx=r"return norm < squaredTolerance;", repl="return norm < tolerance;")]),
     dict(name="c16_constraint_isSatisfied", template="C16/project.c", entry="h_isSatisfied", enforce=["constraint_isSatisfied"], replace=STUBS, sources=PROJ_SRC, flags=FLAGS, level="proof", backend="minisat", timeout=300,
          functions=["ompl::base::Constraint::isSatisfied(Eigen::Ref<const Eigen::VectorXd>)"], expect_loops=0,
          canaries=[dict(name="ignores_non_finite", where="body:isSatisfied", rx=r"ALLFINITE\(\) && ", repl="")]),
@@ -89,6 +104,46 @@ UNITS.append(dict(name="c16_projected_sampler", template="C16/sampler.c", mode="
                            dict(name="sampleGaussian", file=PSS, sig=r"void ompl::base::ProjectedStateSampler::sampleGaussian\(State \*state, const State \*mean, const double stdDev\)", rules=SMP_RULES, loops={})],
                   canaries=[dict(name="projection_dropped", where="body:sampleGaussian", rx=r"PROJECT\(\);", repl="")]))
 
+ASS = "src/ompl/base/spaces/constraint/src/AtlasStateSpace.cpp"
+ATL_RULES = [
+    (r"auto &&svc = si_->getStateValidityChecker\(\);", "", 0), (r"constraint_->isSatisfied\(from\)", "IS_SATISFIED_FROM()", 0), (r"svc->isValid\(from\)", "ISVALID_FROM()", 0),
+    (r"auto afrom = from->as<StateType>\(\);", "", 0), (r"auto ato = to->as<StateType>\(\);", "", 0), (r"AtlasChart \*c = getChart\(afrom\);", "int c = GET_CHART_FROM();", 0),
+    (r"geodesic != nullptr", "HAS_GEODESIC", 0), (r"geodesic->clear\(\);", "GEO_CLEAR();", 0), (r"geodesic->push_back\(cloneState\(from\)\);", "GEO_PUSH_FROM();", 0), (r"geodesic->push_back\(cloneState\(scratch\)\);", "GEO_PUSH_SCRATCH();", 0),
+    (r"distance\(from, to\)", "DIST_TO(cid_from)", 0), (r"distance\(scratch, to\)", "DIST_TO(cid_scr)", 0), (r"distance\(to, scratch\)", "DIST_TO(cid_scr)", 0),
+    (r"const double step = distance\(scratch, temp\);", "const double step = DIST_STEP();", 0), (r"distance\(scratch, temp\)", "DIST_MISC()", 0), (r"distance\(from, scratch\)", "DIST_MISC()", 0),
+    (r"auto scratch = cloneState\(from\)->as<StateType>\(\);", "CLONE_FROM_INTO_SCRATCH();", 0), (r"auto temp = allocState\(\)->as<StateType>\(\);", "ALLOC_TEMP();", 0),
+    (r"Eigen::VectorXd u_j\(k_\), u_b\(k_\);", "", 0), (r"c->psiInverse\(\*scratch, u_j\);", ";", 0), (r"c->psiInverse\(\*ato, u_b\);", ";", 0),
+    (r"u_j \+= factor \* delta_ \* \(u_b - u_j\)\.normalized\(\);", "STEP_IN_CHART();", 0), (r"c->psi\(u_j, \*temp\)", "PSI_INTO_TEMP()", 0), (r"std::numeric_limits<double>::epsilon\(\)", "DBL_EPSILON", 0),
+    (r"copyState\(scratch, temp\);", "COPY_TEMP_TO_SCRATCH();", 0), (r"scratch->setChart\(c\);", "", 0), (r"svc->isValid\(scratch\)", "ISVALID_SCRATCH()", 0), (r"c->phi\(u_j, \*temp\);", "PHI_INTO_TEMP();", 0),
+    (r"c->inPolytope\(u_j\)", "IN_POLYTOPE()", 0), (r"\(c = getChart\(scratch, true, &created\)\) == nullptr", "(c = GET_CHART_SCRATCH(&created)) == 0", 0), (r"c == nullptr", "c == 0", 0),
+    (r"freeState\(scratch\);", "FREE_SCRATCH();", 0), (r"freeState\(temp\);", "FREE_TEMP();", 0), (r"std::size_t", "size_t", 0),
+    # sampler region
+    (r"c->psiInverse\(\*anear, ru\);", ";", 0), (r"unsigned int tries = ompl::magic::ATLAS_STATE_SPACE_SAMPLES;", "unsigned int tries = ATLAS_SAMPLES;", 0), (r"for \(size_t i = 0; i < k; \+\+i\)\s*uoffset\[i\] = ru\[i\] \+ rng_\.gaussian01\(\);", "DRAW_OFFSET();", 0),
+    (r"uoffset \*= dist \* std::pow\(rng_\.uniform01\(\), 1\.0 / k\) / uoffset\.norm\(\);", "SCALE_OFFSET();", 0), (r"c->psi\(uoffset, \*astate\)", "PSI_INTO_STATE()", 0),
+    (r"atlas_->copyState\(state, near\);", "COPY_NEAR_INTO_STATE();", 0), (r"space_->enforceBounds\(state\);", "ENFORCE_IN_BOUNDS();", 0),
+]
+ATL_STUBS = ["IS_SATISFIED_FROM", "ISVALID_FROM", "GET_CHART_FROM", "GET_CHART_SCRATCH", "GEO_CLEAR", "GEO_PUSH_FROM", "GEO_PUSH_SCRATCH", "DIST_TO", "DIST_STEP", "DIST_MISC", "CLONE_FROM_INTO_SCRATCH", "ALLOC_TEMP", "STEP_IN_CHART",
+             "PSI_INTO_TEMP", "PHI_INTO_TEMP", "COPY_TEMP_TO_SCRATCH", "ISVALID_SCRATCH", "IN_POLYTOPE", "FREE_SCRATCH", "FREE_TEMP", "DRAW_OFFSET", "SCALE_OFFSET", "PSI_INTO_STATE", "COPY_NEAR_INTO_STATE", "ENFORCE_IN_BOUNDS"]
+ATL_SRC = [
+    dict(name="atlas_geodesic", file=ASS, sig=r"bool ompl::base::AtlasStateSpace::discreteGeodesic\(const State \*from, const State \*to, bool interpolate,\s*std::vector<ompl::base::State \*> \*geodesic\) const", rules=ATL_RULES, loops={1: """
+__CPROVER_assigns(done, chartsCreated, dist, factor, c, cid_scr, cid_tmp, proj_ok_cid, step_a, step_b, step_val, m0_cid, m0_val, n_pushed, last_pushed_cid)
+__CPROVER_loop_invariant(scr_alive && tmp_alive && allocs == 2 && frees == 0 && cid_scr != 0 && !done)
+__CPROVER_loop_invariant(HAS_GEODESIC ==> (n_pushed >= 1 && last_pushed_cid == cid_scr))
+"""}),
+    dict(name="atlas_sampleNear", file=ASS, begin=r"c->psiInverse\(\*anear, ru\);\s*unsigned int tries = ompl::magic::ATLAS_STATE_SPACE_SAMPLES;", end=r"c->psiInverse\(\*astate, ru\);\s*if \(!c->inPolytope\(ru\)\)", rules=ATL_RULES, loops={1: """
+__CPROVER_assigns(tries, cid_state, proj_ok_cid, psi_calls)
+__CPROVER_loop_invariant(tries >= 1 && tries <= ATLAS_SAMPLES && psi_calls == (int)(ATLAS_SAMPLES - tries) && cid_near == 1 && (psi_calls == 0 ? (cid_state == 2 && proj_ok_cid == 0) : proj_ok_cid != cid_state))
+__CPROVER_decreases(tries)
+"""}),
+]
+UNITS.append(dict(name="c16_atlas_discreteGeodesic", template="C16/atlas.c", entry="h_atlas_geodesic", enforce=["atlas_discreteGeodesic"], replace=ATL_STUBS, flags=FLAGS + ["--object-bits", "10"], level="proof", backend="minisat", timeout=1200,
+                  functions=["ompl::base::AtlasStateSpace::discreteGeodesic"], expect_loops=1, confirm=dict(unwind=4, defines={}), sources=ATL_SRC,
+                  canaries=[dict(name="step_bound_against_the_wandering_budget", where="body:atlas_geodesic", rx=r"step >= lambda_ \* delta_", repl="step >= distMax"),
+                            dict(name="psi_result_ignored", where="body:atlas_geodesic", rx=r"if \(!onManifold\)", repl="if (0)")]))
+UNITS.append(dict(name="c16_atlas_sampleUniformNear", template="C16/atlas.c", entry="h_atlas_sampleNear", enforce=["atlas_sampleNear"], replace=ATL_STUBS, flags=FLAGS + ["--object-bits", "10"], level="proof", backend="minisat", timeout=600,
+                  functions=["ompl::base::AtlasStateSampler::sampleUniformNear (projection retry loop)"], expect_loops=1, confirm=dict(unwind=52, defines={}), sources=ATL_SRC,
+                  canaries=[dict(name="counter_wraps_fallback_never_fires", where="body:atlas_sampleNear", rx=r"--tries > 0", repl="tries-- > 0")]))
+
 C16_CPPS = ["src/ompl/base/src/Constraint.cpp", "src/ompl/base/spaces/constraint/src/ProjectedStateSpace.cpp", "src/ompl/base/spaces/constraint/src/ConstrainedStateSpace.cpp"]
 NATIVE = [
     dict(name="kf_projected_sampler_witness", driver="native/c16_native.cpp", link_ompl=True, unit_cpps=C16_CPPS, args=["kfbounds", 1, 200], known_id="projected-sampler-unchecked"),
@@ -107,4 +162,5 @@ ASSUMPTIONS = ["Constraint: function(), jacobian(), the SVD solve and Eigen's sq
                "a finite squared norm implies that every residual entry is finite (links project()'s success to isSatisfied())"]
 TRUSTED = ["extraction rewrite tables of units/C16.py", "stub contracts in units/C16/*.c", "CBMC 6.11 DFCC + minisat"]
 NOT_COVERED = ["that Newton's iteration converges, or that a state reported satisfied is geometrically on the manifold (numerical linear algebra)",
-               "AtlasStateSpace, TangentBundleStateSpace, AtlasChart (charts, tangent spaces, lazy geodesics)"]
+               "AtlasStateSpace beyond discreteGeodesic's admission logic and the sampler's retry loop (chart creation, polytopes, psiInverse/phi geometry), TangentBundleStateSpace (lazy geodesics), AtlasStateSampler::sampleUniform",
+               "AtlasStateSampler::sampleUniformNear: enforceBounds is assumed to leave the projected state unchanged (it runs after the projection, the pattern of known finding projected-sampler-unchecked)"]
